@@ -11,11 +11,12 @@ CONTAINER_CLASSES = ('list', 'dict', 'set')
 
 
 class Core:
-    def __init__(self, world, contracts, stubs, feas_timeout=1500):
+    def __init__(self, world, contracts, stubs, feas_timeout=100):
         self.w = world
         self.contracts = contracts
         self.stubs = stubs
         self.feas_timeout = feas_timeout
+        self.stage2_ms = int(__import__('os').environ.get('VERIF_STAGE2_MS', '0'))
         self.n = itertools.count()
         self.obls = []
         self.cur = None                 # contract under verification
@@ -253,21 +254,30 @@ class Core:
 
     # ------------------------------------------------------------------ branching
     def feasible(self, st):
+        """cheap pruning: only a quick `unsat` removes a path.  Quantified subformulas are replaced by
+        unconstrained booleans (weaker, hence sound).  Pruning is an optimisation: obligations are always
+        discharged against the full path condition, and places that would give up (Unsupported) first ask
+        `impossible` at full strength."""
+        key = tuple(sorted(st.facts)) if False else None
         t0 = time.time()
         s = z3.Solver()
         s.set('timeout', self.feas_timeout)
-        # stage 1: quantified subformulas are replaced by unconstrained booleans (weaker, hence sound)
         s.add([_strip_quant(p) for p in st.pc])
         r = s.check()
         self.stats['feas_calls'] += 1
-        if r != z3.unsat and any(_has_quant(p) for p in st.pc):
-            # stage 2: the full path condition with a short budget; anything but unsat keeps the path
+        if r == z3.unknown and self.stage2_ms:
             s2 = z3.Solver()
-            s2.set('timeout', 150)
+            s2.set('timeout', self.stage2_ms)
             s2.add(st.pc)
             r = s2.check()
         self.stats['feas_s'] += time.time() - t0
         return r != z3.unsat
+
+    def unsupported(self, st, msg):
+        """give up on a construct -- unless the path that reaches it is infeasible at full strength"""
+        if st is not None and self.impossible(st, z3.BoolVal(True)):
+            return []
+        raise Unsupported(msg)
 
     def impossible(self, st, cond, timeout=4000):
         """full-strength check (quantified facts included) that cond cannot hold on this path"""
@@ -277,8 +287,19 @@ class Core:
         s.add(cond)
         return s.check() == z3.unsat
 
-    def split(self, st, cond):
-        """-> (state where cond holds | None, state where it does not | None)"""
+    def split(self, st, cond, strong=False):
+        """-> (state where cond holds | None, state where it does not | None); strong: also ask the full
+        path condition (quantified facts included) before keeping a branch -- used at high fan-out dispatch"""
+        a, b = self._split(st, cond)
+        if strong:
+            if a is not None and b is not None:
+                if self.impossible(a, z3.BoolVal(True), 600):
+                    a = None
+                elif self.impossible(b, z3.BoolVal(True), 600):
+                    b = None
+        return a, b
+
+    def _split(self, st, cond):
         c = z3.simplify(cond)
         if z3.is_true(c):
             return st, None
@@ -316,19 +337,16 @@ def _has_quant(t):
     k = t.get_id()
     if k in _QC:
         return _QC[k]
-    todo = [t]
-    seen = set()
-    r = False
-    while todo:
-        x = todo.pop()
-        if x.get_id() in seen:
-            continue
-        seen.add(x.get_id())
-        if z3.is_quantifier(x):
-            r = True
-            break
-        if z3.is_app(x):
-            todo.extend(x.children())
+    if z3.is_quantifier(t):
+        r = True
+    elif z3.is_app(t):
+        r = False
+        for x in t.children():
+            if _has_quant(x):
+                r = True
+                break
+    else:
+        r = False
     _QC[k] = r
     _KEEP.append(t)
     return r
@@ -340,12 +358,14 @@ _SQ = {}
 def _strip_quant(t):
     if not _has_quant(t):
         return t
-    if z3.is_quantifier(t):
-        k = t.get_id()
-        if k not in _SQ:
-            _SQ[k] = (t, z3.FreshConst(z3.BoolSort(), 'q'))   # keep t alive so the id stays unique
+    k = t.get_id()
+    if k in _SQ:
         return _SQ[k][1]
-    if z3.is_app(t):
-        ch = [_strip_quant(x) for x in t.children()]
-        return t.decl()(*ch)
-    return t
+    if z3.is_quantifier(t):
+        r = z3.FreshConst(z3.BoolSort(), 'q')
+    elif z3.is_app(t):
+        r = t.decl()(*[_strip_quant(x) for x in t.children()])
+    else:
+        r = t
+    _SQ[k] = (t, r)         # keep t alive so the id stays unique
+    return r
